@@ -195,6 +195,12 @@ T_C08 = T("C08", "W.order", "W.order_final", "W.order_fail", "W.ownership", "W.p
           "R.order", "R.order_final", "R.error_latched", "R.progress", "R.terminates", "R.noleak", "R.can_finish") \
     + T("C08", "W.noleak_partial", kind="partial: when Close returns a worker may still be between the close of its channel and its wake-up (it is runnable: W.noleak_enabled)") \
     + T("C08", "W.noleak_false", kind="counterexample to the literal 'every worker already woke up' (a schedule where Close returns first)")
+T_C14 = T("C14", "fast_pure", "block_pure", "chunking", "chunking_sessions", "frame_function", "concurrency", "concurrency_sessions")
+T_C15 = T("C15", "outcome", "sink_prefix", "failure_reported", "failure_reported'", "no_spurious", "write_concurrent_ok", "readFull_spec", "readFull_frag",
+          "readFrom_frag", "readFrom_frag_state")
+T_C18 = T("C18", "read_le", "read_progress", "frame_eq_writer", "frameOf_eq_writer", "output_eq_writer", "frame_valid", "frame_valid_info", "eof_last",
+          "after_eof_done", "eof_only_when_flushed", "done_stays_done", "reaches_eof", "reaches_eof_frame", "source_error_passed", "error_no_bytes",
+          "source_error_surfaces", "read_zero")
 T_C09 = T("C09", "idx_valid", "c09_writer", "c09_writer_fast", "c09_clean") + T("C09full", "hcCorrect", "c09_writer_all", "c09_clean_all", ns="C09")
 T_C19 = T("C19", "c19_accept_iff", "c19_bad_checksum", "c19_bad_block_size", "c19_size", "c19_bad_magic", "c19_spec", "c19_reader_size")
 
@@ -296,7 +302,7 @@ PROPS = {
     "C06": dict(runs=[FR("frtrunc", judge=j_c06)], theorems=T_C06),
     "C07": dict(runs=[FR("frhost", judge=j_c07), FR("frmut", judge=j_c07)], theorems=[]),
     "C09": dict(runs=[FW("fw", judge=j_c09)], theorems=T_C09),
-    "C15": dict(runs=[FW("fwfail", judge=j_c15w), FR("frfail", judge=j_c15r)], theorems=[]),
+    "C15": dict(runs=[FW("fwfail", judge=j_c15w), FR("frfail", judge=j_c15r)], theorems=T_C15),
     "C16": dict(runs=[FR("fr", judge=j_c16)], theorems=T("C16", "c16_writeTo", "c16_read", "c16_read_no_error", kind=_K64)),
     "C17": dict(runs=[FW("fwlife", judge=j_c17w), FR("fr", judge=j_c17r)], theorems=[]),
     "C01": dict(runs=[dict(CMP, judge=j_c01)], theorems=T_FAST + T_HC),
@@ -306,7 +312,7 @@ PROPS = {
     "C11": dict(runs=[dict(CMP, judge=j_c11)], theorems=T("C01fast", "c11_fast") + T("C01hc", "c11_hc")),
     "C18": dict(runs=[dict(family="cr", variant="asm", kview=kview_w, nontrivial=nontrivial_sess,
                            judge=j_and(j_orc("frame"), j_notes(r"NO-PROGRESS|BADCOUNT|READ-AFTER-EOF|SOURCE-ERROR-NOT-PASSED|NO-EOF", "compressing reader contract broken",
-                                                               "n<=len(p), progress, one valid frame, io.EOF, source error passed through")))], theorems=[]),
+                                                               "n<=len(p), progress, one valid frame, io.EOF, source error passed through")))], theorems=T_C18),
     "C19": dict(runs=[dict(family="hdr", variant="asm", kview=lambda l: l.split(" ; ")[0].strip(), nontrivial=lambda c, i: "acc=" in i and not i.startswith("acc= "),
                       judge=j_notes(r"HDR-MISMATCH\S*", "header acceptance not exact", "accepted iff checksum byte right and block-size code in 4..7; distinct errors; Size unchanged"))],
                theorems=T_C19, exhaustive_thorough=True),
@@ -314,5 +320,5 @@ PROPS = {
                 theorems=T("C04go", "c04_go_partial") + T("C03asm", "c04_asm_partial")),
     "C13": dict(runs=[dict(XXH, judge=j_c13)], extra=[x_c13_4g], theorems=T("C13", "oneshot", "stream", "stream_reset")),
     "C14": dict(runs=[dict(CMP, judge=j_c14b), FW("conc", judge=j_c08, env={"VERIF_SCHED": "4"}), FW("fw", judge=j_c02w, env={"VERIF_SCHED": "5"})],
-                extra=[x_c14_groups], theorems=[]),
+                extra=[x_c14_groups], theorems=T_C14 + T("C08", "W.order_final")),
 }
